@@ -484,7 +484,7 @@ fn replay_one(beh: &[Value], n: usize, w: Duration, emb: &Emb, variant: usize) -
 fn grid(tier: &str, max_tick: u64) -> Vec<(usize, Duration, Emb)> {
     let ns: &[usize] = if tier == "thorough" { &[1, 2, 3, 7, 32] } else { &[1, 2, 3] };
     let ws: &[u64] = if tier == "thorough" { &[1, 1_000, 2_500_000, 1_000_000_000] } else { &[1, 2_500_000] };
-    let kinds: &[&'static str] = if tier == "thorough" { &["ns", "w", "year", "wm1", "rand"] } else { &["w", "year", "rand"] };
+    let kinds: &[&'static str] = if tier == "thorough" { &["ns", "w", "year", "wm1", "rand", "stagger"] } else { &["w", "year", "rand", "stagger"] };
     let mut out = Vec::new();
     for &n in ns {
         for &w in ws {
